@@ -26,6 +26,12 @@ Theorem C17_registry_accesses_ordered : reg_race_free registry_access = true.
 Proof. exact registry_access_race_free. Qed.
 Print Assumptions C17_registry_accesses_ordered.
 
+(* lookup, load, compilation and store of getCompiledSource form one critical section: concurrent first-time requests are
+   served one after the other, which is what makes the sequential model below the model of every interleaving *)
+Theorem C17_compile_serialised : getcompiled_locked_throughout = true.
+Proof. exact eq_refl. Qed.
+Print Assumptions C17_compile_serialised.
+
 (* each source file is fetched and compiled at most once per Registry — exactly once if any runtime asks — in whatever
    order the runtimes' requests are served *)
 Theorem C17_loaded_at_most_once : forall ok ps p, ok p = true -> (count_occ Nat.eq_dec (loads (requests ok empty ps)) p <= 1)%nat.
